@@ -22,6 +22,40 @@ Proof.
   - destruct (lookup k r); auto. apply lookup_ins_neq. congruence.
 Qed.
 
+(* The utxo fields of an input are tied to the output the unsigned transaction references:
+   a non_witness_utxo is the transaction named by the outpoint and has that output; a
+   witness_utxo next to it IS that output - the WHOLE TxOut, amount and script (segwit
+   signatures commit to the amount, and get_utxo / prevouts / sighash_msg prefer witness_utxo);
+   a witness_utxo alone is only accepted for segwit descriptors.  [spk] is the script found. *)
+Definition utxo_tied (a : pinput) (segwit : bool) (spk : N) : Prop :=
+  match i_wutxo a, i_nwutxo a with
+  | Some w, Some nw => nw_txid_ok nw = true /\ nw_out nw = Some w /\ to_spk w = spk
+  | Some w, None => segwit = true /\ to_spk w = spk
+  | None, Some nw => nw_txid_ok nw = true /\ exists o, nw_out nw = Some o /\ to_spk o = spk
+  | None, None => False
+  end.
+
+Lemma txout_eqb_eq w o : txout_eqb w o = true -> w = o.
+Proof.
+  destruct w as [v1 s1], o as [v2 s2]. unfold txout_eqb. simpl. intros H.
+  apply andb_prop in H. destruct H as [H1 H2]. apply N.eqb_eq in H1. apply N.eqb_eq in H2. now subst.
+Qed.
+
+Lemma expected_spk_tied a sg spk :
+  match i_nwutxo a with Some nw => negb (nw_txid_ok nw) | None => false end = false ->
+  expected_spk a sg = Some spk -> utxo_tied a sg spk.
+Proof.
+  unfold expected_spk, utxo_tied. intros Hc He.
+  destruct (i_wutxo a) as [w|], (i_nwutxo a) as [nw|]; simpl in *.
+  - apply negb_false_iff in Hc. destruct (nw_out nw) as [o|]; [|discriminate].
+    destruct (txout_eqb w o) eqn:E; [|discriminate]. apply txout_eqb_eq in E. subst o.
+    inversion He; subst. auto.
+  - destruct sg; [|discriminate]. inversion He; auto.
+  - apply negb_false_iff in Hc. destruct (nw_out nw) as [o|]; simpl in He; [|discriminate].
+    inversion He; subst. split; auto. exists o; auto.
+  - discriminate.
+Qed.
+
 Section Update.
   Variable desc_info : N -> dinfo.
   (* script hashing, supplied by the output-type layer (C15/C16) *)
@@ -66,6 +100,7 @@ Section Update.
     exists spk a',
       (* the descriptor's output is the spent output, checked before anything is written *)
       expected_spk a (d_segwit di) = Some spk /\ spk = d_spk di /\
+      utxo_tied a (d_segwit di) spk /\
       nth_error (p_inputs st') i = Some a' /\ a' = apply_update a di /\
       (forall j, j <> i -> nth_error (p_inputs st') j = nth_error (p_inputs st) j) /\
       i_fsig a' = i_fsig a /\ i_fwit a' = i_fwit a /\
@@ -90,11 +125,11 @@ Section Update.
   Proof.
     intros st i d st' a H Hn di (S1 & S2 & S3 & W). unfold update_input in H. rewrite Hn in H.
     destruct (p_ntx st <=? i); [inversion H|].
-    destruct (match i_nwutxo a with Some nw => negb (nw_txid_ok nw) | None => false end); [inversion H|].
+    destruct (match i_nwutxo a with Some nw => negb (nw_txid_ok nw) | None => false end) eqn:Hnwc; [inversion H|].
     fold di in H. destruct (expected_spk a (d_segwit di)) as [spk|] eqn:He; [|inversion H].
     destruct (N.eqb_spec spk (d_spk di)) as [E|E]; simpl in H; [|inversion H].
     inversion H; subst st'. clear H. exists spk, (apply_update a di).
-    split; auto. split; auto. split. { simpl. eapply nth_set_nth_eq; eauto. }
+    split; auto. split; auto. split. { apply expected_spk_tied; auto. } split. { simpl. eapply nth_set_nth_eq; eauto. }
     split; auto. split. { intros j Hj. simpl. apply nth_set_nth_neq. auto. }
     unfold apply_update. destruct (d_tr di) eqn:Htr; simpl.
     - destruct W as [Wk Wc]. repeat split; auto.
